@@ -264,7 +264,24 @@ func addVal(valA, valB Quantity) Quantity {
 }
 
 func subVal(valA, valB Quantity) Quantity {
-	return addVal(valA, -valB)
+	result := valA - valB
+	// check if the sign wrapped: negating valB first is not safe as -MinInt64 wraps to MinInt64
+	if (result < valA) != (valB > 0) {
+		if valA < 0 {
+			// return the minimum possible
+			log.Log(log.Resources).Warn("Resource calculation wrapped: returned minimum value possible",
+				zap.Int64("valueA", int64(valA)),
+				zap.Int64("valueB", int64(valB)))
+			return math.MinInt64
+		}
+		// return the maximum possible
+		log.Log(log.Resources).Warn("Resource calculation wrapped: returned maximum value possible",
+			zap.Int64("valueA", int64(valA)),
+			zap.Int64("valueB", int64(valB)))
+		return math.MaxInt64
+	}
+	// not wrapped normal case
+	return result
 }
 
 func mulVal(valA, valB Quantity) Quantity {
